@@ -20,7 +20,12 @@ RULE = (
     "and reasons; every reported defaultValue must parse with parse_value and coerce (R-COERCE) to "
     "the declared default; with disable_introspection=True nothing may be visible (meta fields plain "
     "and aliased, the aliased standard query) and ordinary fields - also under a '__' alias - must be "
-    "unaffected. Non-trivial = distinct (schema, query, configuration) for a schema "
+    "unaffected. "
+    "Half of the schemas carry an application-wide default resolver that only knows application "
+    "objects; after all queries the same schema object is modified in place (a member of an "
+    "abstract type hidden) and introspected again; directive locations cover the whole list incl. "
+    "VARIABLE_DEFINITION.  "
+    "Non-trivial = distinct (schema, query, configuration) for a schema "
     "with >= 1 default value, deprecation or abstract type."
 )
 ASSUMPTIONS = ["R-INTROSPECT renders the IR by the specification's introspection schema"]
